@@ -149,6 +149,10 @@ class Ctx:
                 out += [k for k in j.get("findings", []) if k.get("property") == self.prop]
         return out
 
+    def is_known(self, signature: str) -> bool:
+        """True when `signature` is listed as a known finding (the caller may skip costly confirmation runs)."""
+        return any(fnmatch.fnmatchcase(signature, p) for k in self._known for p in k.get("signatures", []))
+
     def violation(self, signature: str, detail: dict | None = None, what: str = ""):
         """Report a property violation observed on the implementation.
 
